@@ -457,6 +457,8 @@ func writeReplay(root, id, ob string, content map[string]interface{}) string {
 }
 
 // extraChecks: property-specific whole-program obligations (immutability frames etc.). Filled in per unit.
-func (e *Engine) extraChecks(id string) []*Oblig { return e.programChecks(id) }
+func (e *Engine) extraChecks(id string) []*Oblig {
+	return append(e.programChecks(id), e.fieldInvProgramChecks(id)...)
+}
 
 func (e *Engine) propAssumptions(id string) []string { return nil }
